@@ -370,4 +370,80 @@ def rule_i(ctx: Ctx) -> None:
     overlay_precedence(ctx, 'C05.i')
 
 
-RULES = [rule_a, rule_b, rule_c, rule_d, rule_e, rule_f, rule_g, rule_h, rule_i]
+def _cdata_exemption(test: ast.AST):
+    """the sub-expression of a guard that exempts a group from the no-character-data rule, in a canonical text; None if absent."""
+    for x in ast.walk(test):
+        if isinstance(x, ast.Call) and text(x.func) == 'isinstance' and len(x.args) == 2 and text(x.args[0]) == 'self[0]' and 'XsdAnyElement' in text(x.args[1]):
+            return x
+    return None
+
+
+def rule_j(ctx: Ctx) -> None:
+    """Strict encoding is sound: what raw_encode lets through, raw_decode accepts.  The sibling pair agrees on character data in
+    element-only content: it is refused unless the group is the single wildcard that stands for an empty declaration - in particular it is
+    refused for a group without particles (a complex type with attributes only)."""
+    rule = 'C05.j'
+    import itertools
+    from .common import bool_atoms, bool_eval
+    verdicts = {}
+    for meth in ('raw_decode', 'raw_encode'):
+        f = ctx.idx.method('xmlschema.validators.groups.XsdGroup', meth)
+        ctx.analysed(f.qualname)
+        g = cfg_of(ctx, f)
+        reps = [n for n, c in call_nodes(g, lambda c: is_reporter_call(c) and any('character data between child elements' in text(a) for a in c.args))]
+        if not reps:
+            # the message is bound to a local first: the report whose `reason` is defined by that assignment (reaching definitions)
+            rd = g.reaching_defs(kinds='nTF')
+            defs = [x for x in g.nodes if x.kind == 'stmt' and isinstance(x.ast, ast.Assign) and 'character data between child elements' in text(x.ast.value)]
+            for n, c in call_nodes(g, is_reporter_call):
+                for a in c.args:
+                    if isinstance(a, ast.Name) and any(d in rd[n].get(a.id, set()) for d in defs):
+                        reps.append(n)
+        if not reps:
+            raise AnalysisError(f'UNRECOGNISED-IDIOM {rule}: the character-data report of XsdGroup.{meth}')
+        gs = guards(ctx, f, reps[0])
+        # does a group WITHOUT particles (len(self) == 0, bool(self) False) reach the report when there is text?  fold the guards over that case
+        reach = True
+        for t, lab in gs:
+            try:
+                e = ast.parse(t, mode='eval').body
+            except SyntaxError:
+                continue
+            atoms = bool_atoms(e)
+            fixed = {}
+            for a in atoms:
+                if a == 'self':
+                    fixed[a] = False
+                elif a == 'len(self) == 1':
+                    fixed[a] = False
+                elif a in ('len(self) != 1',):
+                    fixed[a] = True
+                elif a == 'len(self) > 1':
+                    fixed[a] = False
+                elif a == 'not self':
+                    fixed[a] = True
+            if not fixed:
+                continue
+            free = [a for a in atoms if a not in fixed]
+            can = False
+            for bits in itertools.product((False, True), repeat=len(free)):
+                env = dict(fixed)
+                env.update(zip(free, bits))
+                try:
+                    if bool_eval(e, env) == (lab == 'T'):
+                        can = True
+                        break
+                except KeyError:
+                    can = True
+                    break
+            reach = reach and can
+        verdicts[meth] = (reach, reps[0], f)
+    for meth, (reach, n, f) in verdicts.items():
+        ctx.ob(rule, f'XsdGroup.{meth}: character data is refused for an element-only group without particles', f.loc(n.ast), reach,
+               '' if reach else 'with bool(self) false the report is unreachable: for a complex type with attributes only encode({"@x": 1, "$": "foo"}) emits <e x="1">foo</e>, '
+               'which the same schema rejects when it decodes it', key=f'XsdGroup.{meth}|cdata-empty-group')
+    ctx.explain('C05.j: sibling agreement of XsdGroup.raw_decode / raw_encode - the guards of the "character data between child elements" report are folded for a group without '
+                'particles (bool(self) False, len(self) 0): the report stays reachable in both.')
+
+
+RULES = [rule_a, rule_b, rule_c, rule_d, rule_e, rule_f, rule_g, rule_h, rule_i, rule_j]
